@@ -2,4 +2,5 @@ SPECIFICATION TSpec
 CONSTANTS
   Choice = "geometric"
 INVARIANT Drift_ModelExplainsTicks
+INVARIANT Drift_ModelExplainsNice
 CHECK_DEADLOCK FALSE
